@@ -516,7 +516,7 @@ def obligations(tier):
                    examples=[dict(a=3, ra=1, ia=2, b=13, rb=1, ib=0, off=1), dict(a=15, ra=1, ia=1, b=5, rb=1, ib=0, off=2)]))
     out.append(Obl("haplotype_mapping_two_collections", haplotype_mapping_fn(), dict(a=int, ra=int, ia=int, b=int, rb=int, ib=int),
                    lambda a, ra, ia, b, rb, ib: 0 <= a and a <= 21 and 1 <= ra and ra <= 2 and 0 <= ia and ia <= 3 and 0 <= b and b <= 21 and 1 <= rb and rb <= 2
-                   and 0 <= ib and ib <= 3 and ((a % 3 == 0 and b % 2 == 1 and ra == 1 and rb == 1) or not quick), budget=600, cost=60,
+                   and 0 <= ib and ib <= 3 and ((a % 3 == 0 and b % 2 == 1 and ra == 1 and rb == 1) or not quick), budget=600 if quick else 5400, cost=60 if quick else 600,
                    desc="a collection built with two variant collections maps each haplotype to exactly the genes its variant lies in, each lifted onto that haplotype "
                         "alone (spliced sequence = reference gene with that one edit)", bounds="24-nt reference, two single-exon genes (+/-), one variant per haplotype at "
                         "every offset%s, spans 1..2, alt lengths 0..3 (realised)" % (" (a third / half of the offsets, span 1 in the quick tier)" if quick else ""),
